@@ -76,7 +76,7 @@ def gen_enum(seed, k):
     elif r < 0.65:
         int_repr = rng.choice(int_reprs)
         reprs = [int_repr]
-    elif r < 0.75:
+    elif r < 0.77:
         reprs = ["C"]
     elif r < 0.87 and has_fields:
         int_repr = rng.choice(int_reprs)
@@ -91,13 +91,38 @@ def gen_enum(seed, k):
     if (not has_fields or int_repr) and rng.random() < 0.7 and nv:
         lo, hi = INT_RANGE[int_repr or "isize"]
         if reprs == ["C"] or (not int_repr and "C" in " ".join(reprs)):
-            lo, hi = INT_RANGE["i32"]
+            # a C enum is an int, or an unsigned int when a value does not fit (and none is negative)
+            lo, hi = INT_RANGE["u32"] if (not has_fields and rng.random() < 0.5) else INT_RANGE["i32"]
         interesting = [v for v in (0, 1, 2, 3, 100, 127, 128, 200, 255, 256, 32767, 32768, 65535, 65536, -1, -2, -128, -129,
                                    2 ** 31 - 1, 2 ** 31, -2 ** 31, 2 ** 32, 2 ** 63 - 1, -2 ** 63, 2 ** 64 - 1, lo, hi, hi - 1,
                                    lo + 1, hi - nv, lo + nv) if lo <= v <= hi]
+        if hi == 2 ** 32 - 1 and not int_repr:
+            # C enum read as unsigned int: most values beyond i32::MAX
+            interesting = [0, 1, 2 ** 31 - 1, 2 ** 31, 2 ** 31 + 1, 3000000000, 2 ** 32 - 2 - nv, 2 ** 32 - 1 - nv, 0x80000000 + 77, 5]
         used = set()
         cur = -1
+        run_at = None
+        if nv >= 3 and rng.random() < 0.35:
+            # an implicit run that crosses the boundary of an integer type, followed by a smaller explicit value: the
+            # largest discriminant is then neither written out nor the last one
+            bs = [b for b in (127, 255, 32767, 65535, 2 ** 31 - 1, 2 ** 32 - 1) if lo <= b - 1 and b + nv <= hi]
+            if bs:
+                run_at = (rng.randrange(0, nv - 2), rng.choice(bs) - rng.randint(0, 1))
         for i in range(nv):
+            if run_at is not None and i == run_at[0]:
+                disc[i] = cur = run_at[1]
+                used.add(cur)
+                continue
+            if run_at is not None and i == run_at[0] + 1:
+                cur += 1
+                used.add(cur)
+                continue
+            if run_at is not None and i == nv - 1:
+                small = [v for v in (0, 1, 2, 3, -1, -5, 100) if lo <= v and v not in used and v + 1 not in used]
+                if small:
+                    disc[i] = cur = rng.choice(small)
+                    used.add(cur)
+                    continue
             if rng.random() < 0.6:
                 for _ in range(20):
                     v = rng.choice(interesting)
@@ -123,6 +148,8 @@ def gen_enum(seed, k):
     if len(set(vals)) != len(vals):
         return None
     lo, hi = INT_RANGE[int_repr or ("i32" if "C" in " ".join(reprs) else "isize")]
+    if not int_repr and "C" in " ".join(reprs) and not has_fields and all(0 <= v <= 2 ** 32 - 1 for v in vals):
+        lo, hi = INT_RANGE["u32"]
     if any(not (lo <= v <= hi) for v in vals):
         return None
     # spelling of the explicit discriminants: literal forms everywhere; constant expressions only where the enum has a
